@@ -20,6 +20,7 @@ mod replay_presolve;
 mod replay_update;
 mod replay_timers;
 mod rec_vec;
+mod replay_print;
 
 use rand::rngs::StdRng;
 use rand::{Rng, SeedableRng};
@@ -224,6 +225,10 @@ fn main() {
             write_lines(&args.get("out", "kkt.ndjson"), &lines);
             write_lines(&args.get("cases", "kkt.cases.ndjson"), &cases);
             println!("{}", json!({"layouts": ns, "states": lines.len() - ns}));
+        }
+        "printseq-replay" => {
+            let r = replay_print::replay_file(&args.get("in", "b.ndjson"), &args.get("out", "m.ndjson"), &args.get("dir", "/tmp"));
+            println!("{}", r);
         }
         "vecmath" => {
             let lines = rec_vec::record(args.num("seed", 1), args.get("tier", "quick") == "thorough");
